@@ -146,25 +146,35 @@ class IndexedList(list):
             except KeyError:
                 pass
 
-    def __delitem__(self, ind):
-        try:
-            obj = list.__getitem__(self, ind)
-        except (IndexError, TypeError):
-            obj = self._index[ind]
-            ind = list.index(self, obj)
-        self._delindex(obj)
-        return list.__delitem__(self, ind)
+    def _reindex(self):
+        # the last object in the list carrying a key is the one it maps to
+        self._index = {}
+        _add = self._addindex
+        for obj in self:
+            _add(obj)
 
-    def __delslice__(self, i, j):
-        return list.__delslice__(self, i, j)
+    def _position(self, ind):
+        """Turn a position, key or slice into a position or slice in the list"""
+        if isinstance(ind, (int, slice)):
+            return ind
+        obj = self._index[ind]
+        return list.index(self, obj)
+
+    def __delitem__(self, ind):
+        ind = self._position(ind)
+        list.__delitem__(self, ind)
+        self._reindex()
 
     def __getitem__(self, ind):
         try:
             return self._index[ind]
-        except KeyError:
+        except (KeyError, TypeError):
             if isinstance(ind, str):
                 raise
-            return list.__getitem__(self, ind)
+            res = list.__getitem__(self, ind)
+            if isinstance(ind, slice):
+                return IndexedList(res, self._attrs)
+            return res
 
     def get(self, key, default=None):
         try:
@@ -173,39 +183,23 @@ class IndexedList(list):
             return default
 
     def __contains__(self, item):
-        if item in self._index:
-            return True
+        try:
+            if item in self._index:
+                return True
+        except TypeError:
+            pass
         return list.__contains__(self, item)
 
-    def __getslice__(self, i, j):
-        return IndexedList(list.__getslice__(self, i, j), self._attrs)
-
     def __setitem__(self, ind, new_obj):
-        try:
-            obj = list.__getitem__(self, ind)
-        except (IndexError, TypeError):
-            obj = self._index[ind]
-            ind = list.index(self, obj)
-        self._delindex(obj)
-        self._addindex(new_obj)
-        return list.__setitem__(ind, new_obj)
+        ind = self._position(ind)
+        if isinstance(ind, slice):
+            new_obj = list(new_obj)
+        list.__setitem__(self, ind, new_obj)
+        self._reindex()
 
-    def __setslice__(self, i, j, newItems):
-        _get = self.__getitem__
-        _add = self._addindex
-        _del = self._delindex
-        newItems = list(newItems)
-        # remove indexing of items to remove
-        for ind in range(i, j):
-            _del(_get(ind))
-        # add new indexing
-        if isinstance(newItems, IndexedList):
-            self._index.update(newItems._index)
-        else:
-            for obj in newItems:
-                _add(obj)
-        # replace items
-        return list.__setslice__(self, i, j, newItems)
+    def __iadd__(self, newList):
+        self.extend(newList)
+        return self
 
     def append(self, obj):
         self._addindex(obj)
@@ -213,43 +207,42 @@ class IndexedList(list):
 
     def extend(self, newList):
         newList = list(newList)
-        if isinstance(newList, IndexedList):
-            self._index.update(newList._index)
-        else:
-            _add = self._addindex
-            for obj in newList:
-                _add(obj)
-        return list.extend(self, newList)
+        list.extend(self, newList)
+        _add = self._addindex
+        for obj in newList:
+            _add(obj)
 
     def insert(self, ind, new_obj):
-        # ensure that ind is a numeric index
-        try:
-            obj = list.__getitem__(self, ind)
-        except (IndexError, TypeError):
-            obj = self._index[ind]
-            ind = list.index(self, obj)
-        self._addindex(new_obj)
-        return list.insert(self, ind, new_obj)
+        ind = self._position(ind)
+        list.insert(self, ind, new_obj)
+        self._reindex()
 
     def pop(self, ind=-1):
-        # ensure that ind is a numeric index
-        try:
-            obj = list.__getitem__(self, ind)
-        except (IndexError, TypeError):
-            obj = self._index[ind]
-            ind = list.index(self, obj)
-        self._delindex(obj)
-        return list.pop(self, ind)
+        ind = self._position(ind)
+        obj = list.pop(self, ind)
+        self._reindex()
+        return obj
 
     def remove(self, ind_or_obj):
         try:
             obj = self._index[ind_or_obj]
-            ind = list.index(self, obj)
-        except KeyError:
-            ind = list.index(self, ind_or_obj)
-            obj = list.__getitem__(self, ind)
-        self._delindex(obj)
-        return list.remove(self, ind)
+        except (KeyError, TypeError):
+            obj = ind_or_obj
+        ind = list.index(self, obj)
+        list.__delitem__(self, ind)
+        self._reindex()
+
+    def clear(self):
+        list.clear(self)
+        self._index = {}
+
+    def sort(self, *args, **kwargs):
+        list.sort(self, *args, **kwargs)
+        self._reindex()
+
+    def reverse(self):
+        list.reverse(self)
+        self._reindex()
 
 
 def _correctValInNode(outernode, tagname, value):
